@@ -20,8 +20,12 @@ PROP = {
              "keys, empty values), v5 beta extensions (256 -> 8 bits), v5r1 extensions (256 -> 1 bit), highload old queries (64-bit "
              "keys), keys sharing long prefixes; plus truncated data, trailing bits, missing dictionary reference: seqno, attached "
              "state-init hash AND the library's decoding of the data struct (seqno, id, key, flag, last-cleaned, dictionary keys in "
-             "order) vs the model's decode_data; (2c) histories of 4..9 calls on ONE Wallet object (kind c15.history), every version: "
-             "StateInit(), GetAddress(), NextMessageParams on none / uninit / frozen / active accounts, interleaved with the caller "
+             "order) vs the model's decode_data; all account states of c15.next and c15.send reach the wallet the way applications "
+             "obtain them: the serialised Account record decoded by tlb.Unmarshal into a variable that earlier polls (uninit, active with "
+             "seqno 7, frozen) were decoded into, never a fresh literal; (2c) histories of 4..9 calls on ONE Wallet object (kind "
+             "c15.history), every version: StateInit(), GetAddress(), NextMessageParams on none / uninit / frozen / active accounts given "
+             "as fresh literals or polled into ONE reused record variable (active -> deleted -> active -> uninit -> frozen -> deleted -> "
+             "active(2^32-1) -> deleted), interleaved with the caller "
              "overwriting in place what it was handed (data / code / special / library of the returned *StateInit, the Init of "
              "NextMsgParams, its copy of the address) and REUSING THE PRIVATE-KEY BUFFER it passed to New (refilled with another key or "
              "wiped; the library must not have written to it): every answer vs the model and vs a fresh wallet of the original key; (3) SendV2 on wallets created "
@@ -48,7 +52,8 @@ PROP = {
                     "decide (C15_confirm_ten_polls; the harness checks <= 10 real polls); the message is addressed to the wallet itself; a "
                     "mnemonic is accepted iff it has >= 12 space-separated parts and version byte 0 (C15_seed_accepted_spec); SendV2 signs "
                     "expiry = now + the configured lifetime (C15_api_send_v2_expiry, clock a parameter); a Wallet object keeps nothing "
-                    "between calls: after any history, incl. the caller modifying returned values, every answer is that of a fresh "
+                    "between calls and NextMessageParams reads the CURRENT account record only, whatever earlier polls left in the reused "
+                    "variable (C15_next_params_polled; the Status()-from-inner-tag design is refuted in Proofs/WalletHistory.v): after any history, incl. the caller modifying returned values, every answer is that of a fresh "
                     "wallet (C15_history_independent; the memoising design that hands its cache out by pointer and the design that keeps a view of the "
                     "caller's key buffer as the public key are refuted in Proofs/WalletHistory.v). coq/Properties/C15_gen.v re-checks on today's source that every accepted version's code BOC parses "
                     "to one root, that the twelve code hashes are pairwise distinct (hence codes_distinct), the constants and the Version "
